@@ -29,14 +29,20 @@ WHAT IS PROVED (STATUS: PROVED, no theorem is `_partial`; all 24 constructors of
     `write`        the open file `f` with handle `h`: `writeLicence cs cs' f.currentOffset k`, `cs = chainOf gh.G
                    f.entry.cluster` the file's chain, `cs'` the grown chain (`cs <+: cs'`, all data clusters), `k ≤
                    data.length` bytes stored: FAT entries of the last cluster of `cs` and of `cs'.drop cs.length`, the
-                   bytes `[offset, offset + k)` of the file;
-    `flush`, `closeFile`   `flushLicence gh.vol f.entry`: the slot of `f` (+ info sector on FAT32);
+                   bytes `[offset, offset + k)` of the file; the handle is not read-only, and the appended clusters
+                   `cs'.drop cs.length` were in NO chain of `gh.G` before the call;
+    `flush`, `closeFile`   `flushLicence gh.vol f.entry`: the slot of `f` (+ info sector on FAT32), `f` WRITTEN TO
+                   (`f.dirty`; a clean flush / close is `nothing`);
     `closeVolume`  `infoLicence gh.vol`;
     `delete`, `truncate`   `o` the file object of the handle's directory with the name's short form: the slot of `o`,
-                   the FAT entries of `chainOf gh.G (sCluster … o)` — the chain of THAT file;
-    `createSlot`   one aligned slot of a block of the directory;
+                   the FAT entries of `chainOf gh.G (sCluster … o)` — the chain of THAT file; `o` is CLOSED (no open
+                   file sits at it: both calls refuse an open file);
+    `createSlot`   one aligned slot of a block of the directory, which was FREE before the call (first byte 0x00 or
+                   0xE5: `WriteSet.FreeAt`);
     `createGrow`   the FAT entries of the directory's last cluster and of a FREE cluster `c`, the blocks of `c`;
-    `mkdirSlot`, `mkdirGrow`, `mkdirFull`   the FREE cluster `cn` (FAT entry, blocks) + as for create.
+    `mkdirSlot`, `mkdirGrow`, `mkdirFull`   the FREE cluster `cn` (FAT entry, blocks) + as for create (a FREE slot; a
+                   FREE cluster the parent grows by).
+  (The facts in capitals were added for the syntactic criterion of `Props/C09Hist.notNamed_of_syntactic`.)
 * `history_licensed`: every call of every covered history is licensed (`RunLicensed v0 s ops Ls`, `Ls` the licences,
   one per call; `runLicensed_cons_iff` spells the relation out).
 * `history_never_leaves_volume`: **no API history ever writes block 0, the boot sector, a reserved block other
